@@ -5,6 +5,7 @@ pub mod c03;
 pub mod c04;
 pub mod c05;
 pub mod c06;
+pub mod c07;
 pub mod c10;
 pub mod c19;
 pub mod c20;
@@ -19,6 +20,7 @@ pub fn run(name: &str, ctx: &Ctx, rep: &mut Report) -> bool {
     "c04" => c04::run(ctx, rep),
     "c05" => c05::run(ctx, rep),
     "c06" => c06::run(ctx, rep),
+    "c07" => c07::run(ctx, rep),
     "c10" => c10::run(ctx, rep),
     "c19" => c19::run(ctx, rep),
     "c20" => c20::run(ctx, rep),
